@@ -13,6 +13,10 @@ theorem evalBin_sub_u64 (x y : Int) : evalBin .sub .u64 x y = .ok ((x - y) % 184
 theorem evalBin_mul_u64 (x y : Int) : evalBin .mul .u64 x y = .ok ((x * y) % 18446744073709551616) := rfl
 theorem evalBin_band_u64 (x y : Int) : evalBin .band .u64 x y = .ok ((x.toNat &&& y.toNat : Nat) : Int) := rfl
 theorem evalBin_lt_u64 (x y : Int) : evalBin .lt .u64 x y = .ok (b2i (decide (x < y))) := rfl
+theorem evalBin_le_u64 (x y : Int) : evalBin .le .u64 x y = .ok (b2i (decide (x ≤ y))) := rfl
+theorem evalBin_ge_u64 (x y : Int) : evalBin .ge .u64 x y = .ok (b2i (decide (x ≥ y))) := rfl
+theorem evalBin_gt_u64 (x y : Int) : evalBin .gt .u64 x y = .ok (b2i (decide (x > y))) := rfl
+theorem evalBin_ge_i64 (x y : Int) : evalBin .ge .i64 x y = .ok (b2i (decide (x ≥ y))) := rfl
 theorem evalBin_ne_u64 (x y : Int) : evalBin .ne .u64 x y = .ok (b2i (decide (x ≠ y))) := rfl
 theorem evalBin_eq_u64 (x y : Int) : evalBin .eq .u64 x y = .ok (b2i (decide (x = y))) := rfl
 theorem evalBin_add_i64 (x y : Int) : evalBin .add .i64 x y = .ok (addS x y) := rfl
@@ -53,6 +57,10 @@ theorem ok_decide_false {p : Prop} [Decidable p] (h : ¬ p) : (R.ok (decide p) :
 
 theorem memOf_ok (fl : Flow) (σ : State) : memOf (.ok (fl, σ)) = .ok σ.mem := rfl
 theorem thenStep_norm (σ : State) (k : State → Out) : thenStep (.ok (.norm, σ)) k = k σ := rfl
+theorem thenStep_ret (σ : State) (k : State → Out) : thenStep (.ok (.ret, σ)) k = .ok (.ret, σ) := rfl
+theorem thenStep_cont (σ : State) (k : State → Out) : thenStep (.ok (.cont, σ)) k = k σ := rfl
+theorem exec_ret (Γ : List Ptr) (f : Nat) (σ : State) : exec Γ .ret f σ = .ok (.ret, σ) := rfl
+theorem exec_cont (Γ : List Ptr) (f : Nat) (σ : State) : exec Γ .cont f σ = .ok (.cont, σ) := rfl
 theorem thenStep_err (e : Err) (k : State → Out) : thenStep (.err e) k = .err e := rfl
 
 theorem lget_zero (x : Int) (xs : List Int) : lget (x :: xs) 0 = x := rfl
@@ -102,10 +110,11 @@ theorem set_fill_zero (m : Mem) (r : Nat) (g : Nat → Int) : m.setIfInBounds r 
 /-- the simp set of the symbolic execution: unfold one statement / expression constructor at a time -/
 macro "cir_simp" : tactic =>
   `(tactic| simp only [exec_skip, exec_assign, exec_store, exec_seq, exec_ite, exec_memcpy, exec_memset,
+      exec_call_run, exec_passign, eval_ptrEq, evalList_nil, evalList_cons, evalPtrs_nil, evalPtrs_cons,
       eval_lit, eval_var, eval_load, eval_cast, eval_un, eval_bin, eval_cond, eval_land, eval_lor, eval_isNull,
       evalB_def, evalUn_lnot,
-      R.bind_ok, R.bind_err, thenStep_norm, thenStep_err, seqK_norm, seqK_err, seqK_ret, seqK_cont,
-      evalBin_add_u64, evalBin_sub_u64, evalBin_mul_u64, evalBin_band_u64, evalBin_lt_u64, evalBin_ne_u64,
+      R.bind_ok, R.bind_err, thenStep_norm, thenStep_err, thenStep_ret, thenStep_cont, exec_ret, exec_cont, seqK_norm, seqK_err, seqK_ret, seqK_cont,
+      evalBin_add_u64, evalBin_sub_u64, evalBin_mul_u64, evalBin_band_u64, evalBin_lt_u64, evalBin_le_u64, evalBin_ge_u64, evalBin_gt_u64, evalBin_ge_i64, evalBin_ne_u64,
       evalBin_eq_u64, evalBin_add_i64, evalBin_sub_i64, evalUn_neg_i64, evalBin_add_f64, evalBin_sub_f64,
       evalUn_neg_f64, wrap_u64, wrap_i64, decide_b2i_ne_zero, ite_b2i_ne_zero,
       lget_zero, lget_succ, lset_zero, lset_succ, List.getD_cons_zero, List.getD_cons_succ])
